@@ -4,6 +4,7 @@ package interp
 
 import (
 	"fmt"
+	"os"
 	"go/types"
 	"strings"
 )
@@ -189,8 +190,13 @@ func zzObserve(fr *frame, args []value) value {
 		vals = append(vals, it.v)
 	}
 	ps.observe(key, vals)
+	if debugObs {
+		fmt.Fprintf(os.Stderr, "gosym: observe %s %s\n", key, toString(vals))
+	}
 	return nil
 }
+
+var debugObs = os.Getenv("GOSYM_DEBUG_OBS") != ""
 
 var errorIface = types.Universe.Lookup("error").Type().Underlying().(*types.Interface)
 
